@@ -129,6 +129,12 @@ pub fn oracle_state(w: &World, m: &mut Matcher, mask: &[u32], canonical: bool, r
         }
         // EOS ends validation successfully when accepting; afterwards nothing more is counted
         if k != kk && !forced_single && !canonical {
+            // recorded finding: after the token that completes the grammar (accepting, no extension) the matcher
+            // has stopped, so EOS cannot be committed any more, but validate_tokens still counts an EOS there
+            if k == kk + 1 && seq.get(kk) == Some(&w.eos) && c.is_stopped() && c.is_accepting().unwrap_or(false) {
+                rep.fail("oracle", "c01:validate-counts-eos-after-final-token", format!("step {step}: validate_tokens({seq:?}) = {k}: the EOS after the token that completes the grammar is counted, but the matcher has already stopped and commits only {kk}"), repro.clone());
+                return false;
+            }
             rep.fail("oracle", "c01:validate-longest-prefix", format!("step {step}: validate_tokens({seq:?}) = {k}, committable one by one = {kk}"), repro.clone());
             return false;
         }
